@@ -17,7 +17,8 @@ def funcs : List (String × String) := [
   ("internal/dmarc/verifier.go:type Verifier", "8086bd9a2487a52c"),
   ("internal/dmarc/verifier.go:type errPanic", "d2d64e3e18742109"),
   ("internal/dmarc/verifier.go:type verifyData", "af02233da37756e2"),
-  ("internal/msgpipeline/check_runner.go:checkRunner.applyResults", "7aa5b1a3a230ef0d")
+  ("internal/msgpipeline/check_runner.go:checkRunner.applyResults", "7aa5b1a3a230ef0d"),
+  ("internal/msgpipeline/check_runner.go:checkRunner.checkBody", "772d1186a2a91890")
 ]
 
 end MaddyVerif.Expect.FuncSkelC07
